@@ -111,6 +111,9 @@ func genCartHistory(r *engine.Rand, sc *engine.Scenario, c cartConfig, n int, ra
 	if c.kind != "rom" && r.Chance(1, 4) {
 		sc.Cart.HeaderEveryPage = true
 	}
+	if c.kind != "rom" && r.Chance(1, 5) {
+		sc.Cart.CollidingPages = true
+	}
 	if r.Chance(1, 4) {
 		// the window is not looked at after every operation: several operations go by unobserved
 		sc.SetP("sparse_probe", int64(r.Range(3, 12)))
